@@ -152,14 +152,18 @@ def gre_hdr (proto, csum=False, key=None, seq=None, routing=None, payload=b''):
 
 
 CORPUS_PATHS = {}
+# Frames whose re-encoding by the library legitimately differs from the frame (reason given); every other corpus frame
+# must satisfy pack(parse(frame)) == frame.  Filled by corpus().
+CORPUS_NOT_CANONICAL = {}
 
 def corpus ():
   """name -> frame bytes.  Deterministic; does not touch POX."""
   C = {}
-  def add (name, frame, path):
+  def add (name, frame, path, not_canonical=None):
     assert name not in C
     C[name] = bytes(frame)
     CORPUS_PATHS[name] = path
+    if not_canonical: CORPUS_NOT_CANONICAL[name] = not_canonical
 
   pay = pattern(18)
   u4 = lambda d, sp=1234, dp=4321, src=A1, dst=A2: r_udp(d, sp, dp, ph4(17, src, dst))
@@ -178,6 +182,13 @@ def corpus ():
   # SNAP behind a two-byte (I/S format) control field: the SNAP header starts one byte later
   add("eth_snap_iformat", r_eth8023(b'\xaa\xaa\x10\x12\x00\x00\x0c\x20\x00' + pay), "ethernet/llc(2-byte control)+snap/raw")
   add("eth_snap_sformat", r_eth8023(b'\xaa\xaa\x01\x02\x00\x00\x0c\x20\x00' + pay), "ethernet/llc(2-byte control)+snap/raw")
+  # I and S format control fields at their boundaries: second octet 0x00 (N(R)=0, P/F=0), 0x01, 0xff; with and without SNAP
+  short = pattern(6)
+  for nm, c1, c2 in (("i_nr0", 0x00, 0x00), ("i_nsmax_nrmax", 0xfe, 0xff), ("rr_nr0", 0x01, 0x00), ("rnr_pf", 0x05, 0x01)):
+    add("eth_llc_" + nm, r_eth8023(bytes([0x42, 0x43, c1, c2]) + short), "ethernet/llc(2-byte control %02x %02x)" % (c1, c2))
+  for nm, c1, c2 in (("i_nr0", 0x00, 0x00), ("i_pf", 0x02, 0x01), ("rr_nr0", 0x01, 0x00), ("rnr_nrmax", 0x05, 0xff)):
+    add("eth_snap_" + nm, r_eth8023(bytes([0xaa, 0xaa, c1, c2]) + b'\x00\x00\x0c\x20\x00' + short),
+        "ethernet/llc(2-byte control %02x %02x)+snap/raw" % (c1, c2))
   add("eth_snap_ipv4_udp", r_eth8023(b'\xaa\xaa\x03\x00\x00\x00\x08\x00' + r_ipv4(u4(pay), 17)),
       "ethernet/llc+snap(oui 0)/ipv4/udp")
   add("vlan_ipv4_udp", r_eth(r_vlan(r_ipv4(u4(pay), 17), 0x0800), 0x8100), "ethernet/vlan/ipv4/udp")
@@ -353,6 +364,15 @@ def corpus ():
   add("icmp6_mld_report", i6(131, 0, struct.pack("!HH", 0, 0) + ip6("ff02::1:ff00:2"), hop=1), "ethernet/ipv6/icmpv6/raw")
   add("ipv6_udp_dns", e6(u6(struct.pack("!HHHHHH", 7, 0x0100, 1, 0, 0, 0) + dns_name("a.b") + struct.pack("!HH", 28, 1),
                             40000, 53), 17), "ethernet/ipv6/udp/dns")
+  # families whose re-encoding legitimately differs from the wire form they were given (by parser path)
+  for name, path in CORPUS_PATHS.items():
+    if name not in C: continue
+    if "/dhcp" in path:
+      CORPUS_NOT_CANONICAL[name] = "DHCP options are re-emitted in the library's own layout (pad option after odd-length options)"
+    elif "unreach/ipv4" in path or "time_exceeded/ipv4" in path:
+      CORPUS_NOT_CANONICAL[name] = "the datagram quoted by an ICMP error is truncated; its length/checksum fields are recomputed"
+    elif "ipv6+" in path:
+      CORPUS_NOT_CANONICAL[name] = "listed finding C14:chain:ipv6 (extension headers are not serialised)"
   return C
 
 
@@ -680,15 +700,21 @@ kind("vlan", dict(pcp=[5, 0, 7], cfi=[0, 1], id=[0x123, 0, 1, 0xfff], eth_type=[
      lambda P, v, inner: _set(P.pkt.vlan(pcp=v["pcp"], cfi=v["cfi"], id=v["id"],
                                          eth_type=_flat_len(inner) if v["eth_type"] == "len" else v["eth_type"]), inner),
      lambda P: P.pkt.vlan)
-kind("llc", dict(dsap=[0x42, 0x00, 0xff, 0xaa], ssap=[0x43, 0x01, 0xfe], control=[0x03, 0xf3, 0x1210, 0xfe00, 0x3401]),
+# 802.2 control field: U format (low two bits of the first octet 11) is one octet; I (bit0 = 0) and S (01) formats are two
+# octets, kept by the library as first | second << 8.  Every first octet class x second octet {0x00, 0x01, 0xff}: a second
+# octet of 0x00 (N(R) = 0, P/F = 0) makes the numeric value <= 0xff although the field is two octets wide.
+LLC_CONTROL2 = [b1 | (b2 << 8) for b1 in (0x00, 0x02, 0x01, 0x05, 0xfe, 0xfd) for b2 in (0x00, 0x01, 0xff)]
+LLC_CONTROL = [0x03, 0xf3, 0xff] + LLC_CONTROL2 + [0x1210, 0x3401]
+_llc_len = lambda control: 3 if (control & 3) == 3 else 4
+kind("llc", dict(dsap=[0x42, 0x00, 0xff, 0xaa], ssap=[0x43, 0x00, 0x01, 0xfe, 0xff], control=LLC_CONTROL),
      ["dsap", "ssap", "control"],
      lambda P, v, inner: _set(P.pkt.llc(dsap=v["dsap"], ssap=v["ssap"], control=v["control"],
-                                        length=3 if (v["control"] & 3) == 3 else 4), inner),
+                                        length=_llc_len(v["control"])), inner),
      lambda P: P.pkt.llc)
-kind("snap", dict(dsap=[0xaa, 0xab], ssap=[0xaa, 0xab], control=[0x03], oui=[b"\x00\x00\x0c", b"\x00\x00\x00", b"\xff\xff\xff"],
+kind("snap", dict(dsap=[0xaa, 0xab], ssap=[0xaa, 0xab], control=[0x03, 0xf3] + LLC_CONTROL2, oui=[b"\x00\x00\x0c", b"\x00\x00\x00", b"\xff\xff\xff"],
                   eth_type=[0x2000, 0, 0xffff, 0x88b5]), ["dsap", "ssap", "control", "oui", "eth_type"],
      lambda P, v, inner: _set(P.pkt.llc(dsap=v["dsap"], ssap=v["ssap"], control=v["control"], oui=v["oui"],
-                                        eth_type=v["eth_type"], length=8), inner),
+                                        eth_type=v["eth_type"], length=_llc_len(v["control"]) + 5), inner),
      lambda P: P.pkt.llc)
 kind("arp", dict(hwtype=[1], prototype=[0x0800], hwlen=[6], protolen=[4], opcode=[1, 2, 3, 4, 0, 0xffff],
                  hwsrc=MACS, hwdst=MACS2, protosrc=IPS, protodst=IPS2),
@@ -709,8 +735,8 @@ kind("eap", dict(code=[3, 4], id=U8(0x5a)), ["code", "id", "length"],
 
 def _mk_lldp (P, v, inner):
   return _set(P.pkt.lldp(tlvs=_lldp_tlvs(P, v)), inner)
-kind("lldp", dict(chassis_subtype=[4, 7, 1, 255], chassis_id=[b"\x02\x11\x22\x33\x44\x55", b"c", pattern(255)],
-                  port_subtype=[7, 3, 1, 255], port_id=[b"eth0", b"p", pattern(255)], ttl=U16(120), tlvs=LLDP_TLVS),
+kind("lldp", dict(chassis_subtype=[4, 7, 1, 0, 255], chassis_id=[b"\x02\x11\x22\x33\x44\x55", b"c", pattern(255)],
+                  port_subtype=[7, 3, 1, 0, 255], port_id=[b"eth0", b"p", pattern(255)], ttl=U16(120), tlvs=LLDP_TLVS),
      ["tlvs"], _mk_lldp, lambda P: P.pkt.lldp)
 
 def _mk_ipv4 (P, v, inner):
@@ -775,7 +801,7 @@ def _mk_dhcp (P, v, inner):
   for opt in _dhcp_options(P, v["options"]):
     o.add_option(opt)
   return o
-kind("dhcp", dict(op=[1, 2], hops=U8(3), xid=U32(0x3903f326), secs=U16(9), flags=[0x8000, 0], ciaddr=IPS, yiaddr=IPS2,
+kind("dhcp", dict(op=[1, 2, 0, 255], hops=U8(3), xid=U32(0x3903f326), secs=U16(9), flags=[0x8000, 0, 0xffff, 1], ciaddr=IPS, yiaddr=IPS2,
                   siaddr=["10.0.0.1", "0.0.0.0"], giaddr=["10.0.0.254", "0.0.0.0"], chaddr=MACS[:3],
                   sname=[b"", b"srv", pattern(64)], file=[b"", b"pxelinux.0", pattern(128)], options=DHCP_OPTS),
      ["op", "htype", "hlen", "hops", "xid", "secs", "flags", "ciaddr", "yiaddr", "siaddr", "giaddr", "chaddr", "sname", "file",
@@ -791,7 +817,7 @@ kind("dns", dict(id=U16(0xbeef), qr=B2, opcode=[0, 1, 7, 15], aa=B2, tc=B2, rd=[
                  rcode=[0, 3, 15], sections=DNS_SECTIONS),
      ["id", "qr", "opcode", "aa", "tc", "rd", "ra", "z", "ad", "cd", "rcode", "questions", "answers", "authorities", "additional"],
      _mk_dns, lambda P: P.pkt.dns)
-kind("rip", dict(command=[2, 1], version=[2, 1], entries=RIP_ENTRIES), ["command", "version", "entries"],
+kind("rip", dict(command=[2, 1, 0, 255], version=[2, 1, 0, 255], entries=RIP_ENTRIES), ["command", "version", "entries"],
      lambda P, v, inner: P.rip.rip(command=v["command"], version=v["version"], entries=_rip_entries(P, v["entries"])),
      lambda P: P.rip.rip)
 
